@@ -209,6 +209,11 @@ def scrutinee_class(f, sw_bb, fx=None):
     return 'raw', arms, expr_str(pe)
 
 
+RAW_REQUIRED = {
+    'state::State::load_value_opcode': 'matches on the cell as it is: a tagged cell falls to LoadCell with its tags',
+}
+
+
 def run(rep, facts, tier):
     fx = facts['dev']
     rep.rule('C13.R1', 'no raw variant test on a possibly-tagged cell: every Cell discriminant switch in a word goes through Cell::value() or has a WithTag arm')
@@ -256,6 +261,26 @@ def run(rep, facts, tier):
                         '(reachable from word registry via %s)' % (ptxt[:80], '|'.join(arms), ' -> '.join(short(c) for c in (chain or [fn])[-3:])),
                         fn, f.at(bb))
     rep.floor('C13.R1 Cell discriminant switches in words', n_sw, 40)
+    # the other direction: where a value is STORED (compiled into the code as a constant), looking through the tags loses them.
+    # The function that picks the load instruction matches on the cell as it is, so that a tagged cell takes the generic
+    # LoadCell path; its compact encodings (LoadI64 / LoadStr / LoadNil) cannot hold a tag map
+    for fn, why_raw in sorted(RAW_REQUIRED.items()):
+        f = fx.need(fn)
+        kinds = []
+        for bb in sorted(f.reachable_blocks()):
+            t = f.blocks[bb]['term']
+            if t['k'] != 'switch':
+                continue
+            e = f.expr_of_operand(t['discr'])
+            if isinstance(e, tuple) and e[0] == 'discr' and e[2] == 'cell::Cell':
+                cls = scrutinee_class(f, bb, fx)
+                if cls:
+                    kinds.append(cls[0])
+        okr = bool(kinds) and all(k == 'raw' for k in kinds) and not any(callee_of(t) == VALUE for _, t in f.calls())
+        rep.add('C13.R3', 'C13.R3:%s:stored-value-keeps-its-tags' % fn, okr,
+                why_raw if okr else
+                '%s looks through the tags of the value it stores (switch kinds %s): `#( 5 ^{ 1 "k" ^} const FIVE #) FIVE tags` gives nil - the '
+                'compact load instructions have no room for a tag map' % (short(fn), kinds or ['none']), fn, f.j['span'])
 
     # R2: shape of Cell::value and with_tags
     vf = fx.need(VALUE)
